@@ -131,6 +131,13 @@ CHECKS = {
         "Bound: kernel buffers <=5 (quick) / 7 (thorough) tokens over 8 kinds; 13 namespace-level and 10 class-level declaration kinds x 11 arrangements, pairs only. Cases the statement leaves open are not asserted (listed in evidence assumptions). D18a/D18b (trailing scan across tokens) are known findings matched by shape.",
         "DESIGN.md 3/C11",
     ),
+    "C09": (
+        "model_checking",
+        "regex -> z3 (E-RX): for solver-chosen token classes a, b and every layout string, lex(a + layout + b) = a, discardables, b; CrossHair (z3) exhaustive exploration of program x token gap x layout (x second gap) through parse_string against the baseline result; directive lines with trailing comments",
+        "Layer L: z3 decides for all code-point strings inside the bound that no pair of stream tokens separated by a layout string lexes differently. Layers S+P: every program of the pool, every token gap (from the real lexer's offsets) and every layout string is parsed and compared with the baseline; 'Confirmed over all paths' = exhausted.",
+        "Bound: layer L 2 tokens <=3 (quick) / 5 (thorough) code points x 10 layouts; 50 programs x all gaps x 17 layouts (thorough: two gaps at once). No documentation comments in the programs (C11). D9/D10 (comment at the end of a #pragma / #include line) are known findings.",
+        "DESIGN.md 3/C09",
+    ),
 }
 
 NOT_YET = "no check landed yet in this build (planned engine and bounds: DESIGN.md section 3); not claimed until the check runs green"
